@@ -174,9 +174,13 @@ class SelectorWorld:
                 m = self.meta[objname]
                 lo = m.get("twin_score_min")
                 hi = m.get("twin_score_max")
+                first = m.get("twin_score_first")
                 if lo is None or not np.isfinite(lo) or lo <= 0:
                     return None
                 if v.get("type") == "relative":
+                    if v.get("at_construction") and first and np.isfinite(first) and first > 0:
+                        # reference latched at the first step of the cold fit
+                        return float(v["$unreached"]) * float(lo) / float(first)
                     return float(v["$unreached"]) * float(lo) / float(hi)
                 return float(v["$unreached"]) * float(lo)
         return v
@@ -242,6 +246,12 @@ class SelectorWorld:
             "twin_from": op.get("twin_from"),
             "twin_seqs": [],
         }
+        if self.pid == "C08" and op.get("X") and not op.get("twin_from"):
+            # the final cold fit (no threshold) gives the score range from which thresholds
+            # that a cold fit provably does not reach are derived
+            base = {k: v for k, v in op["params"].items() if not (isinstance(v, dict) and "$unreached" in v) and k != "score_threshold_type"}
+            self.meta[name]["resolved"] = {k: self.resolve_param(v, name) for k, v in base.items()}
+            self.c08_prepare(name, self.meta[name], {"X": op["X"], "y": op.get("y")})
         try:
             obj, p = self.make_obj(op["cls"], op["params"], name)
         except Exception as e:  # noqa: BLE001
@@ -396,16 +406,24 @@ class SelectorWorld:
                     f"fit did not finish within {self.env.clock.CAP} clock reads under clock {op.get('env', {}).get('clock')}",
                     clock=(op.get("env") or {}).get("clock", {}).get("mode"),
                 )
+            elif not self._c06_in_domain(m, op):
+                self.count("out_of_domain_request_rejected")
             else:
                 p = m["resolved"]
+                ff_now = getattr(obj, "full_fraction", None)
                 self.violate(
                     "fit_raises_in_domain",
                     cls,
-                    f"fit raised {type(e).__name__}: {str(e)[:160]} params={_short(p)} warm={op.get('warm')}",
+                    f"fit raised {type(e).__name__}: {str(e)[:160]} params={_short(p)} warm={op.get('warm')} "
+                    f"fit #{m['fits']} of this object, full_fraction attribute now {ff_now!r}",
                     exc=type(e).__name__,
                     n_to_select_form=_form(p.get("n_to_select")),
                     warm=bool(op.get("warm")),
                     full_fraction_form=_form(p.get("full_fraction")),
+                    cold_refit_after_calibrated_zero=bool(
+                        not op.get("warm") and m["fits"] > 1 and p.get("full_fraction") is None
+                        and isinstance(ff_now, numbers.Real) and ff_now == 0
+                    ),
                 )
         elif self.pid == "C08":
             if op.get("expect") == "reject":
@@ -444,6 +462,39 @@ class SelectorWorld:
             self.c06_stepwise(name, obj, m, op, rec, X, y, n_before)
         elif self.pid == "C08":
             self.c08_twin(name, obj, m, op, rec, X, y, n_before)
+
+    def _c06_in_domain(self, m, op):
+        """Is the request one for which C06 promises a selection?"""
+        p = m["resolved"]
+        try:
+            X = self.heap.pristine(op["X"])
+            n = X.shape[0]
+            if X.ndim != 2 or n < 2 or X.shape[1] < 2 or not np.all(np.isfinite(X)):
+                return False
+            nts = p.get("n_to_select")
+            if nts is not None and not isinstance(nts, numbers.Real):
+                return False
+            if isinstance(nts, numbers.Real) and not isinstance(nts, numbers.Integral) and not 0 < nts <= 1:
+                return False
+            N = resolve_n_to_select(nts, n)
+            if not 1 <= N <= n:
+                return False
+            init = p.get("initialize", 0)
+            if init != "random" and not (isinstance(init, numbers.Integral) and 0 <= init < n):
+                return False
+            ff = p.get("full_fraction")
+            if ff is not None and not (isinstance(ff, numbers.Real) and 0 < ff <= 1):
+                return False
+            nt = p.get("n_trial_calculation", 4)
+            if not (isinstance(nt, numbers.Integral) and nt >= 1):
+                return False
+            if op.get("y"):
+                y = self.heap.pristine(op["y"])
+                if len(y) != n:
+                    return False
+            return True
+        except Exception:  # noqa: BLE001
+            return False
 
     # ------------------------------------------------------------------ C01
     def c01_invariants(self, name, obj, m, op, rec, X, y, n_before):
@@ -681,35 +732,42 @@ class SelectorWorld:
             self.count(f"calibration_outcome_{int(round(float(ff) * 128)):03d}")
             self.count("calibrations")
         m["final"] = [int(v) for v in final_idx]
+        m.setdefault("finals", {})[m["fits"]] = (m["final"], op["X"])
 
     def c06_lanes(self):
         """Clock independence: lanes are identical objects/histories under different
-        clocks; their sequences must agree up to the first reference tie."""
+        clocks; after every fit of the history their sequences must agree up to the
+        first reference tie."""
         groups = {}
         for name, m in self.meta.items():
-            if m.get("lane") is not None and "final" in m:
+            if m.get("lane") is not None and m.get("finals"):
                 groups.setdefault(m["lane"], []).append((name, m))
         for lane, members in groups.items():
             base_name, base = members[0]
             for name, m in members[1:]:
-                a, b = base["final"], m["final"]
-                self.count("lane_pairs")
-                if a == b:
-                    self.count("lane_pairs_identical")
-                    continue
-                k = next((i for i in range(min(len(a), len(b))) if a[i] != b[i]), min(len(a), len(b)))
-                Xp = self.heap.pristine(base["data"][0])
-                ref = FPSReference(Xp)
-                for j in a[:k]:
-                    ref.add(j)
-                if k < min(len(a), len(b)) and ref.is_tie():
-                    self.count("lane_pairs_differ_at_tie")
-                    continue
-                self.violate(
-                    "clock_dependent_selection",
-                    m["cls"],
-                    f"identical histories under different clocks selected {a} vs {b}; first difference at step {k} is not a tie",
-                )
+                for fit_no in sorted(set(base["finals"]) & set(m["finals"])):
+                    (a, xa), (b, xb) = base["finals"][fit_no], m["finals"][fit_no]
+                    if xa != xb:
+                        continue
+                    self.count("lane_pairs")
+                    if a == b:
+                        self.count("lane_pairs_identical")
+                        continue
+                    k = next((i for i in range(min(len(a), len(b))) if a[i] != b[i]), min(len(a), len(b)))
+                    ref = FPSReference(self.heap.pristine(xa))
+                    for j in a[:k]:
+                        ref.add(j)
+                    if k < min(len(a), len(b)) and (ref.is_tie() or k == 0 and False):
+                        self.count("lane_pairs_differ_at_tie")
+                        continue
+                    self.violate(
+                        "clock_dependent_selection",
+                        m["cls"],
+                        f"identical histories under different clocks selected {a} vs {b} in fit #{fit_no}; "
+                        f"first difference at step {k} is not a tie | params={_short(m['resolved'])}",
+                        first_step=bool(k == 0),
+                    )
+                    break
 
     # ------------------------------------------------------------------ C08
     def quiet_twin(self, cls, params, Xn, yn, record_scores=True):
@@ -781,6 +839,7 @@ class SelectorWorld:
         chosen = [float(sc[b[ns_at]]) for ns_at, sc in trec.scores if ns_at < len(b)]
         if chosen:
             m["twin_score_min"], m["twin_score_max"] = min(chosen), max(chosen)
+            m["twin_score_first"] = chosen[0]
 
     def _tau_for(self, cls, Xp, yp, p):
         info = SEL[cls]
